@@ -58,6 +58,10 @@ def rule_pub1(S):
 
         def step(ctx, nd, st):
             loads, stores, bad = st
+            if nd['k'] == 'CXXMemberCallExpr' and nd.get('mcls') == P and nd.get('cn') in MUTATORS and \
+                    root_var(f, call_recv(f, nd)) == 'this':
+                # another mutator of the same word: a second load and a second publication
+                return (min(loads + 1, 3), min(stores + 1, 3), bad)
             if is_load(f, nd):
                 return (min(loads + 1, 3), stores, bad)
             if is_store(f, nd):
